@@ -376,3 +376,21 @@ func (w *FifoWriter) Close() { _ = w.f.Close() }
 
 // Quiesce returns once every other goroutine of the harness is blocked (natively: after a pause).
 func Quiesce() { time.Sleep(150 * time.Millisecond) }
+
+// LoadFile points the native runtime at another replay file and rewinds it.
+func LoadFile(path string) {
+	mu.Lock()
+	defer mu.Unlock()
+	data, err := os.ReadFile(path)
+	if err != nil {
+		panic(err)
+	}
+	rf = replayFile{}
+	if err := json.Unmarshal(data, &rf); err != nil {
+		panic(err)
+	}
+	loaded = true
+	pos = 0
+	Failures, Reached, Notes, Invalid = nil, nil, nil, nil
+	originOnce = sync.Once{}
+}
